@@ -178,6 +178,20 @@ fn build(p: &Pool, site: &str, nkeys: usize, thr: u64, list: &[Value]) -> Option
             files.push(("metadata/2.root.json".into(), to_bytes(&e2)));
             Some(Built { shipped: to_bytes(&e1), files })
         }
+        "root-samekeys" => {
+            // v1 and v2 list the SAME root keys in the same order; v1 has threshold 1, v2 raises it to thr: the
+            // new root must meet its own threshold although the old root is satisfied by one signature
+            if nkeys == 0 {
+                return None;
+            }
+            let r1 = root_for(p, 1, "root", nkeys, 1, &p.r);
+            let e1 = envelope(&r1, &[&p.a[1]]);
+            let r2 = root_for(p, 2, "root", nkeys, thr, &p.r);
+            let e2 = envelope_sigs(&r2, sig_list(p, list, &r2));
+            let mut files = top_files(p, list, "", plain_targets, vec![]);
+            files.push(("metadata/2.root.json".into(), to_bytes(&e2)));
+            Some(Built { shipped: to_bytes(&e1), files })
+        }
         "timestamp" | "snapshot" | "targets" => {
             let r = root_for(p, 1, site, nkeys, thr, &p.r);
             let env = envelope(&r, &[&p.r]);
@@ -332,7 +346,7 @@ pub fn run(args: &[String]) {
                             Ok(Ok(repo)) => {
                                 // for the root-update sites acceptance means the new root was adopted
                                 let adopted = repo.root().signed.version.get();
-                                if site == "root-old" || site == "root-new" {
+                                if site == "root-old" || site == "root-new" || site == "root-samekeys" {
                                     (adopted == 2, format!("ok:root{adopted}"), false)
                                 } else {
                                     (true, "ok".to_string(), false)
